@@ -623,6 +623,15 @@ def _replay_candidates(prog, cj, model, shapes, dtypes, pos_names, ins, cands, o
             arrays = _test_vectors(prog, shapes, dtypes, False)[0]
         else:
             arrays = equiv.model_inputs(c.model, ins)
+        if prog.x64:
+            # also try the witness moved off the float32 grid (a hidden single-precision round trip
+            # is invisible on float32-representable inputs)
+            pert = [np.asarray(a) * (1.0 + 2.0 ** -30) + 2.0 ** -33 if np.asarray(a).dtype.kind == "f" else a for a in arrays]
+            differs, info = replay_concrete(prog, cj, model, pert, pos_names)
+            if differs:
+                out["status"] = "violation"
+                out["witness"] = {"what": c.what + " (witness perturbed off the float32 grid)", "out_index": c.out_index, "elem": c.elem_index, **info}
+                return out
         differs, info = replay_concrete(prog, cj, model, arrays, pos_names)
         if differs:
             out["status"] = "violation"
